@@ -4,8 +4,10 @@ import (
 	"bytes"
 	"context"
 	"fmt"
+	"io"
 	"net"
 	"os"
+	"syscall"
 	"testing"
 	"testing/synctest"
 	"time"
@@ -26,6 +28,21 @@ type scenario struct {
 	CtxDL  bool          `json:"ctx_deadline"`    // the caller's context carries a far-away deadline
 	CtxAt  time.Duration `json:"ctx_deadline_at"` // >0: the caller's context deadline expires at this instant (mid-try)
 	Cfg    int           `json:"cfg"`             // client logging configuration (cli.NewCfg)
+	// Fault > 0 (silence scenarios): at that instant the pending read on the connection fails with a passing error
+	// (ICMP error reported on the socket, expired read deadline, interface down).  The schedule is the same.
+	Fault time.Duration `json:"fault,omitempty"`
+}
+
+func faultErr(k int) error {
+	switch k % 4 {
+	case 0:
+		return &net.OpError{Op: "read", Net: "udp", Err: os.NewSyscallError("recvfrom", syscall.ECONNREFUSED)}
+	case 1:
+		return os.ErrDeadlineExceeded
+	case 2:
+		return &net.OpError{Op: "read", Net: "packet", Err: syscall.ENETDOWN}
+	}
+	return io.ErrUnexpectedEOF
 }
 
 var dests = []*net.UDPAddr{
@@ -127,14 +144,23 @@ func run(t *testing.T, sc scenario, want []byte, xid uint32) (res result) {
 			time.Sleep(4 * sc.T * time.Duration(int64(1)<<uint(tries)))
 			synctest.Wait()
 			res.later = len(conn.Writes()) - nw
-		} else if sc.N < 0 {
-			time.Sleep(horizon - time.Nanosecond)
-			synctest.Wait()
-			cancel()
-			synctest.Wait()
 		} else {
-			time.Sleep(horizon + 4*sc.T)
-			synctest.Wait()
+			if sc.Fault > 0 {
+				synctest.Wait()
+				time.Sleep(sc.Fault)
+				synctest.Wait()
+				conn.Inject(sconn.Datagram{Err: faultErr(sc.Cfg + sc.Dest)})
+				synctest.Wait()
+			}
+			if sc.N < 0 {
+				time.Sleep(horizon - time.Nanosecond - time.Since(start))
+				synctest.Wait()
+				cancel()
+				synctest.Wait()
+			} else {
+				time.Sleep(horizon + 4*sc.T - time.Since(start))
+				synctest.Wait()
+			}
 		}
 		res.writes = conn.Writes()
 		if !res.returned { // unblock a stuck call so that the bubble can end
@@ -248,6 +274,9 @@ func judge(r *mon.Rec, t *testing.T, sc scenario) {
 	}
 	r.Shape(fmt.Sprintf("%s/%v/%d/%d/%s/%d/%d/%v/%v", sc.Fam, sc.T, sc.N, sc.Accept, sc.Off, sc.Extra, sc.Dest, sc.CtxDL, sc.CtxAt), sc.N != 1 || sc.Accept >= 0)
 	r.Count("transmissions_checked", len(res.writes))
+	if sc.Fault > 0 {
+		r.Count("scenarios_with_a_read_fault", 1)
+	}
 	if r.NSamples() < 6 && sc.N >= 2 && sc.N <= 3 {
 		r.Sample(map[string]any{"scenario": sc, "transmissions_at": times(res.writes), "returned_at": res.retAt.String(), "err": fmt.Sprint(res.err)})
 	}
@@ -269,7 +298,7 @@ func grid(quick bool) []scenario {
 	}
 	for _, fm := range []string{"nclient4", "nclient6"} {
 		for _, T := range Ts {
-			for n := -1; n <= 6; n++ {
+			for _, n := range []int{-1 << 31, -1000, -2, -1, 0, 1, 2, 3, 4, 5, 6} { // every negative count means "until cancelled"
 				extras := []int{0, 57}
 				if !quick {
 					extras = []int{0, 1, 57, 199}
@@ -277,7 +306,11 @@ func grid(quick bool) []scenario {
 				for _, ex := range extras {
 					for d := 0; d < len(dests); d++ {
 						for _, dl := range []bool{false, true} {
-							out = append(out, scenario{fm, T, n, -1, "", ex, d, dl, 0, len(out) % cli.NCfg})
+							out = append(out, scenario{Fam: fm, T: T, N: n, Accept: -1, Extra: ex, Dest: d, CtxDL: dl, Cfg: len(out) % cli.NCfg})
+							if n != 0 && n != 1 && !dl { // the same with a read fault during try 0 / try 1
+								tf := []time.Duration{T / 3, T + T/2, 1, T - 1}[len(out)%4]
+								out = append(out, scenario{Fam: fm, T: T, N: n, Accept: -1, Extra: ex, Dest: d, Cfg: len(out) % cli.NCfg, Fault: tf})
+							}
 							if n >= 2 && !dl { // the context's deadline expires in the middle of try 1 / try 2
 								out = append(out, scenario{Fam: fm, T: T, N: n, Accept: -1, Extra: ex, Dest: d, CtxAt: T + T/2, Cfg: len(out) % cli.NCfg})
 								out = append(out, scenario{Fam: fm, T: T, N: n, Accept: -1, Extra: ex, Dest: d, CtxAt: T / 3, Cfg: len(out) % cli.NCfg})
@@ -288,7 +321,7 @@ func grid(quick bool) []scenario {
 							}
 							for k := 0; k < kmax; k++ {
 								for _, off := range []string{"start", "inwrite", "middle", "last"} {
-									out = append(out, scenario{fm, T, n, k, off, ex, d, dl, 0, len(out) % cli.NCfg})
+									out = append(out, scenario{Fam: fm, T: T, N: n, Accept: k, Off: off, Extra: ex, Dest: d, CtxDL: dl, Cfg: len(out) % cli.NCfg})
 								}
 							}
 						}
